@@ -324,7 +324,17 @@ def getitem(I, a, idx):
         return Opaque('bool-mask selection')
     if isinstance(idx, SArr) and idx.kind == 'i' and a.ndim == 1 and idx.ndim == 1:
         src, idx = a.frozen(), idx.frozen()
-        return SArr(idx.shape, lambda q: src.get(idx.get(q[0])), a.kind, tag='take')
+        n = a.shape[0]
+        # numpy: negative entries count from the end; an entry outside [-n, n) raises IndexError
+        oob = SArr(idx.shape, lambda q: sym.Or(sym.lt(idx.get(q), sym.neg(n)), sym.ge(idx.get(q), n)), 'b', tag='oob')
+        if not getattr(I, 'pure', False) and I.ctx.branch(reduce_bool(I, oob, 'any')):
+            raise PyExc('IndexError')
+        norm = lambda x: sym.ite(sym.lt(x, 0), sym.add(x, n), x)
+        r = SArr(idx.shape, lambda q: src.get(norm(idx.get(q[0]))), a.kind, tag='take')
+        if a.mask is not None:
+            m = a.mask.frozen()
+            r.mask = SArr(idx.shape, lambda q: m.get(norm(idx.get(q[0]))), 'b', tag='take-mask')
+        return r
     if isinstance(idx, SArr) and idx.kind == 'i' and idx.ndim == 1:
         idx = (idx,)
     if isinstance(idx, list) and idx and all(sym.is_intkind(x) for x in idx):
@@ -1370,6 +1380,19 @@ def _getdata(I, args, kw):
     # the data of a masked array as a plain array (a view in numpy; never written through in the verified code)
     r = SArr(a.shape, kind=a.kind, buf=a.buf, imap=a.imap, inv=a.inv, attrs={}, tag='getdata')
     return r
+
+
+@_np('atleast_1d')
+def _atleast_1d(I, args, kw):
+    x = args[0]
+    if isinstance(x, SArr):
+        if x.ndim >= 1:
+            return x
+        val = x.get(())
+        return SArr((1,), lambda q: val, x.kind, tag='atleast_1d')
+    if isinstance(x, (list, tuple)):
+        return from_list(I, list(x))
+    return SArr((1,), lambda q: x, _kind_of(x), tag='atleast_1d')
 
 
 @_np('ndim')
